@@ -16,6 +16,7 @@ pub mod xfer;
 pub mod c10;
 pub mod c10t;
 pub mod c11;
+pub mod c12x;
 pub mod c13;
 pub mod c15;
 pub mod c16;
@@ -50,6 +51,7 @@ pub fn dispatch(args: &Args) -> Report {
         "C10" => c10::run(args),
         "C10T" => c10t::run(args),
         "C11" => c11::run(args),
+        "C12X" => c12x::run(args),
         "C13" => c13::run(args),
         "C15" => c15::run(args),
         "C16" => c16::run(args),
